@@ -226,7 +226,10 @@ func (s *composeSlice) build() {
 				b.WithKey(t[2])
 			}
 			if t[3] != "-" {
-				b.CacheIf(predicate(int(atoi(t[3]))))
+				// every CacheIf call adds a condition; a result is stored if any of them accepts it
+				for _, c := range strings.Split(t[3], ",") {
+					b.CacheIf(predicate(int(atoi(c))))
+				}
 			}
 			b.OnCacheHit(func(e failsafe.ExecutionDoneEvent[int]) { s.emit("ca.onHit", pos, e.Attempts(), e.Executions()) }).
 				OnCacheMiss(func(e failsafe.ExecutionEvent[int]) { s.emit("ca.onMiss"+fl(e), pos, e.Attempts(), e.Executions()) }).
@@ -419,7 +422,11 @@ func (s *composeSlice) run(async bool, ck string, scriptText string, x string) s
 	var wg sync.WaitGroup
 	var doneAtt, doneExe, doneRet, doneHed int
 	verdict := "?"
-	ex := failsafe.NewExecutor[int](s.policies...)
+	// the executor is first bound to another context (cancellable, with a cache key of its own): a later WithContext replaces it
+	decoyCtx, decoyCancel := context.WithCancel(context.WithValue(context.Background(), cachepolicy.CacheKey, "DECOY"))
+	defer decoyCancel()
+	base := failsafe.NewExecutor[int](s.policies...)
+	ex := base.WithContext(decoyCtx)
 	// runaway guard: an execution that invokes the function more than 3000 times is cancelled and reported
 	guardCtx, guardCancel := context.WithCancel(context.Background())
 	defer guardCancel()
@@ -443,6 +450,9 @@ func (s *composeSlice) run(async bool, ck string, scriptText string, x string) s
 		s.emit("ex.onFailure", 0, e.Attempts(), e.Executions())
 		verdict = "F"
 	})
+	// an executor derived from the same base with listeners of its own: executors derived with WithContext are independent
+	sibling := func(e failsafe.ExecutionDoneEvent[int]) { s.emit("DECOY.ex", 0, e.Attempts(), e.Executions()) }
+	_ = base.WithContext(decoyCtx).OnDone(sibling).OnSuccess(sibling).OnFailure(sibling)
 	fn := func(exec failsafe.Execution[int]) (int, error) {
 		wg.Add(1)
 		defer wg.Done()
@@ -643,8 +653,11 @@ func genCompose(r *rand.Rand, n int, tier string, emit func(string) string) {
 			case 4:
 				pre = append(pre, "ca")
 				cif := "-"
-				if r.Intn(4) == 0 {
+				switch r.Intn(6) {
+				case 0:
 					cif = strconv.Itoa(r.Intn(3))
+				case 1:
+					cif = fmt.Sprintf("%d,%d", r.Intn(3), r.Intn(3)) // two CacheIf calls
 				}
 				pols = append(pols, fmt.Sprintf("pol cache %d %s %s", nca, pick(r, "-", "k1", "k2"), cif))
 				nca++
